@@ -51,11 +51,24 @@ func Analyze(c *pvcase.Case) *Analysis {
 	return a
 }
 
+// LitNullable reports whether a literal can match without consuming: the
+// empty literal, and a literal made only of U+FFFD, which the runtime matches
+// at end of input (there p.pt.rn is utf8.RuneError with width 0 and
+// parseLitMatcher has no EOF check).
+func LitNullable(e *pvcase.Expr) bool {
+	for _, r := range e.Runes {
+		if r != 0xFFFD {
+			return false
+		}
+	}
+	return true
+}
+
 // Nullable reports whether e can possibly succeed without consuming input.
 func (a *Analysis) Nullable(e *pvcase.Expr) bool {
 	switch e.Kind {
 	case pvcase.KLit:
-		return len(e.Runes) == 0
+		return LitNullable(e)
 	case pvcase.KCls, pvcase.KAny:
 		return false
 	case pvcase.KOpt, pvcase.KStar, pvcase.KAnd, pvcase.KNot,
